@@ -126,6 +126,7 @@ structure State where
   price : String := ""
   versions : String := ""
   rewardsPool : Int := 0        -- fees collected in the current block (in memory only)
+  totalStakes : Int := 0        -- Candidates.totalStakes (Σ total bip stakes as of the last recalculation)
   deriving Repr
 
 /-! ### Holdings -/
